@@ -1,2 +1,102 @@
-(** C18  Renaming chromosomes changes names only.   (statements follow; see Proofs/RenameProofs.v) *)
-From Cooler Require Import Model.Rename.
+(** C18  Renaming chromosomes changes names only.
+    Statements about the model of _rename_chroms over the object store (Model/Rename.v, Model/H5.v),
+    each closed by a lemma of Proofs/RenameProofs.v.
+    [shape w f g tc tb names]: g is a collection group whose chroms table tc and bins table tb are
+    distinct group objects, chroms/name holds [names], bins/chrom is an enum or integer dataset. *)
+From Cooler Require Import Model.Rename Proofs.RenameProofs.
+
+(** names = the substitution applied to every name, in the original order; the collection keeps its shape *)
+Theorem C18_names_substituted_in_order : forall w f g tc tb names m w',
+  shape w f g tc tb names -> rename_chroms w f g m = Some w' ->
+  shape w' f g tc tb (map (subst m) names) /\ chromnames w' f g = map (subst m) (chromnames w f g).
+Proof. exact rename_names. Qed.
+Print Assumptions C18_names_substituted_in_order.
+
+(** names only: every other readable dataset of any table (lengths, starts, ends, extra columns,
+    pixels, indexes) is the same object with the same payload *)
+Theorem C18_everything_else_unchanged : forall w f g tc tb names m w' t col x,
+  shape w f g tc tb names -> rename_chroms w f g m = Some w' ->
+  ~ (t = tc /\ col = "name"%string) -> ~ (t = tb /\ col = "chrom"%string) ->
+  ds_at w f t col = Some x -> ds_at w' f t col = Some x.
+Proof. exact rename_frame. Qed.
+Print Assumptions C18_everything_else_unchanged.
+
+Theorem C18_tables_are_the_same_objects : forall w f g tc tb names m w' tbl o,
+  shape w f g tc tb names -> rename_chroms w f g m = Some w' ->
+  child w f g tbl = Some o -> child w' f g tbl = Some o.
+Proof. exact rename_tables_kept. Qed.
+Print Assumptions C18_tables_are_the_same_objects.
+
+(** bin codes are kept; an enum header becomes the new names; an integer encoding is left alone *)
+Theorem C18_bin_codes_unchanged : forall w f g tc tb names m w',
+  shape w f g tc tb names -> rename_chroms w f g m = Some w' ->
+  bin_codes w' f g = bin_codes w f g /\
+  (forall hdr codes, ds_at w f tb "chrom"%string = Some (PEnum hdr codes) ->
+                     ds_at w' f tb "chrom"%string = Some (PEnum (map (subst m) names) codes)) /\
+  (forall codes, ds_at w f tb "chrom"%string = Some (PInts codes) ->
+                 ds_at w' f tb "chrom"%string = Some (PInts codes)).
+Proof. exact rename_codes. Qed.
+Print Assumptions C18_bin_codes_unchanged.
+
+(** bin labels are substituted, for both encodings *)
+Theorem C18_bin_labels_substituted : forall w f g tc tb names m w',
+  shape w f g tc tb names -> rename_chroms w f g m = Some w' ->
+  Forall (fun c => 0 <= c < Z.of_nat (List.length names)) (bin_codes w f g) ->
+  (forall hdr codes, ds_at w f tb "chrom"%string = Some (PEnum hdr codes) -> hdr = names) ->
+  bin_labels w' f g = map (subst m) (bin_labels w f g).
+Proof. exact rename_labels. Qed.
+Print Assumptions C18_bin_labels_substituted.
+
+(** for maps whose result is duplicate-free: the id of the new name is the id of the old name ... *)
+Theorem C18_lookup_by_new_name : forall m names x,
+  NoDup (map (subst m) names) -> In x names ->
+  chromid (map (subst m) names) (subst m x) = chromid names x.
+Proof. exact rename_chromid. Qed.
+Print Assumptions C18_lookup_by_new_name.
+
+(** ... and a region addressed by the new name has the extent the old name had *)
+Theorem C18_extent_by_new_name : forall w f g tc tb names m w' x,
+  shape w f g tc tb names -> rename_chroms w f g m = Some w' ->
+  NoDup (map (subst m) names) -> In x names ->
+  (forall ti, child w f g "indexes"%string = Some ti -> ti <> tc /\ ti <> tb) ->
+  (forall ti, child w f g "indexes"%string = Some ti -> exists d, ds_at w f ti "chrom_offset"%string = Some d) ->
+  extent w' f g (subst m x) = extent w f g x.
+Proof. exact rename_extent. Qed.
+Print Assumptions C18_extent_by_new_name.
+
+(** histories: a chain of renamings substitutes map after map *)
+Theorem C18_chains_compose : forall ms w f g tc tb names w',
+  shape w f g tc tb names -> rename_chain w f g ms = Some w' ->
+  let final := fold_left (fun ns m => map (subst m) ns) ms names in
+  shape w' f g tc tb final /\ chromnames w' f g = final.
+Proof. exact rename_chain_names. Qed.
+Print Assumptions C18_chains_compose.
+
+Theorem C18_two_renamings : forall w f g tc tb names m1 m2 w1 w2,
+  shape w f g tc tb names -> rename_chroms w f g m1 = Some w1 -> rename_chroms w1 f g m2 = Some w2 ->
+  chromnames w2 f g = map (fun x => subst m2 (subst m1 x)) names.
+Proof. exact rename_twice. Qed.
+Print Assumptions C18_two_renamings.
+
+(** outside the claimed domain (DESIGN section 8): a map producing a duplicate name makes name lookups ambiguous *)
+Theorem C18_duplicate_result_refuted :
+  match rename_chroms w18 FA 0 [("chr1", "chr2")]%string with
+  | Some w' => chromnames w' FA 0 = ["chr2"; "chr2"; "chrX"]%string /\
+               extent w' FA 0 "chr2"%string = Some (3, 5) /\ extent w18 FA 0 "chr1"%string = Some (0, 3)
+  | None => False
+  end.
+Proof. exact rename_duplicate_refuted. Qed.
+Print Assumptions C18_duplicate_result_refuted.
+
+(** non-vacuity: a concrete collection created by the model of [create] has the shape, and a swap behaves *)
+Example ex_C18_shape : shape w18 FA 0 1 4 ["chr1"; "chr2"; "chrX"]%string.
+Proof. exact ex_shape18. Qed.
+Example ex_C18_swap :
+  match rename_chroms w18 FA 0 swap12 with
+  | Some w' => chromnames w' FA 0 = ["chr2"; "chr1"; "chrX"]%string /\
+               bin_labels w' FA 0 = ["chr2"; "chr2"; "chr2"; "chr1"; "chr1"; "chrX"]%string /\
+               extent w' FA 0 "chr2"%string = Some (0, 3) /\ extent w18 FA 0 "chr1"%string = Some (0, 3) /\
+               column w' FA 0 "pixels"%string "count"%string = Some (PInts [1; 5])
+  | None => False
+  end.
+Proof. exact ex_swap18. Qed.
